@@ -50,7 +50,8 @@ Judge(r) ==
      ELSE IF ~r.ns_exists THEN Verdict(r.rid, "C05", "reject", "the prologue did not install the hook namespace")
      ELSE IF {r.ns_keys[i] : i \in 1..Len(r.ns_keys)} # {r.alldsts[i] : i \in 1..Len(r.alldsts)}
           THEN Verdict(r.rid, "C05", "reject", <<"prologue defines", r.ns_keys, "configured", r.alldsts>>)
-     ELSE IF why # "" /\ ~(D6 \in sdev) THEN Verdict(r.rid, "C05", "reject", <<"with the file's own pass-through hooks", why>>)
+     ELSE IF why # "" /\ ~callReadVsArgs /\ ~(D6 \in sdev) /\ ~(D10 \in sdev /\ r.reenter)
+          THEN Verdict(r.rid, "C05", "reject", <<"with the file's own pass-through hooks", why>>)
      ELSE Verdict(r.rid, "C05", "ok", Len(r.ns_keys))
 
 Init == l = 1
